@@ -83,6 +83,8 @@ let plan_case line =
     let x = List.map (fun p -> let pi = info_of p in
       Printf.sprintf "%d:%d:%d:%s" (int_of_n p.pp_id) (int_of_n pi.pi_used_blobs) (int_of_n pi.pi_unused_blobs)
         (match p.pp_cand with None -> "-" | Some PartlyUsed -> "P" | Some ToCompress -> "C" | Some SizeMismatch -> "S")) ps in
+    let szs = List.map (fun p -> let pi = info_of p in
+      Printf.sprintf "%d:%d:%d" (int_of_n p.pp_id) (int_of_n pi.pi_used_size) (int_of_n pi.pi_unused_size)) ps in
     let cands = List.filter (fun p -> p.pp_cand <> None) ps in
     let key p = let pi = info_of p in (pi.pi_type, int_of_n pi.pi_used_size, int_of_n pi.pi_unused_size) in
     let eqk a b = let (ta, ua, na) = key a and (tb, ub, nb) = key b in ta = tb && nb * ua = na * ub in
@@ -92,10 +94,10 @@ let plan_case line =
     let newp = match nf with Some f -> join (List.map ip f.f_packs) | None -> "" in
     let newd = match nf with Some f -> join (List.map ip f.f_del) | None -> "" in
     let cp = List.concat_map (fun (nid, l) -> List.map (fun (src, b) -> Printf.sprintf "%d:%d:%d" (int_of_n src) (int_of_n b.b_id) (match b.b_tpe with Tree -> 0 | Data -> 1)) l) out.out_new in
-    Printf.sprintf "ok d=%s mod=%s rw=%s unref=%s left=%s stats=%s | x=%s ties=%d removed=%s newpacks=%s newdel=%s copied=%s kept_files=%d"
+    Printf.sprintf "ok d=%s mod=%s rw=%s unref=%s left=%s stats=%s | x=%s sz=%s ties=%d removed=%s newpacks=%s newdel=%s copied=%s kept_files=%d"
       (join d) (join m) (join rw) (join un) (join left)
       (join (Array.to_list (Array.map string_of_int st)))
-      (join x) (b2i (ties cands))
+      (join x) (join szs) (b2i (ties cands))
       (join (List.map (fun i -> string_of_int (int_of_n i)) out.out_removed)) newp newd (join cp)
       (List.length out.out_index - (match nf with Some _ -> 1 | None -> 0))
 
